@@ -363,7 +363,8 @@ def directed_cases():
     for n, m in mats.items():
         for op in ("Det", "Inv", "Trace"):
             C.append({"op": op, "args": [{"k": "plain", "shape": [n, n], "data": m}]})
-            C.append({"op": op, "args": [{"k": "fe", "shape": [n, n, n, n], "data": [x + (1 if (i // (n * n)) % 2 and i % (n * n) == 1 else 0) for i, x in enumerate(m * (n * n))]}]})
+            mt = [m[j * n + i] for i in range(n) for j in range(n)]     # transpose: same determinant (a power of 2)
+            C.append({"op": op, "args": [{"k": "fe", "shape": [n, n, n, n], "data": sum([m if b % 2 == 0 else mt for b in range(n * n)], [])}]})
     # wrap: results whose shape looks like a field but is not on the (Ne, nPg) axes
     C.append({"op": "einsum", "labels": [[0, 1]], "out": [1, 0], "args": [fe([2, 2, 2, 2])]})
     C.append({"op": "where", "args": [fe([2, 2], [0, 1, 1, 0]), fe([2, 2]), sc(0)]})
@@ -627,6 +628,11 @@ def correspondence(ctx, ncases, cap, per_file=400):
         nontriv = r["kind"] < 10 and len(r["data"]) > 1
         ctx.note_case(case_key(c) if nontriv else None)
     ctx.cov["corr_cases_by_family"] = dist
+    ctx.cov["rule"] = ("cases = 127 directed + random FeArray/Field expressions (props/C12.py Gen, all choices from ctx.rng): family, operator, "
+                       "operand kinds and order, tensor ranks 0-4, sizes 1-4 with 55% collision mode (Ne = nPg = every dim); each is run on "
+                       "the implementation and on the Coq model and compared exactly. A case is non-trivial when the implementation returns "
+                       "an array with more than one value (not an error branch); distinct = distinct (family, operator/axis class/subscripts, "
+                       "operand kinds, tensor ranks, collision-or-free) keys")
     ctx.cov["corr_collision_cases"] = sum(1 for c in cases if c["coll"])
     ctx.cov["corr_error_branch_cases"] = sum(1 for c in cases if results[c["id"]]["kind"] >= 10)
     ctx.cov["corr_values_compared"] = sum(len(results[c["id"]]["data"]) for c in cases)
@@ -656,7 +662,13 @@ def report(ctx, cases, results, bad, rbad):
         groups.setdefault(violation_key(c), []).append(c)
     ctx.cov["corr_disagreeing_cases"] = len(bad)
     ctx.cov["corr_disagreement_keys"] = {k: len(v) for k, v in sorted(groups.items())}
-    reps = {k: min(v, key=lambda c: sum(len(o["data"]) for o in c["args"])) for k, v in groups.items()}
+    # representative per key: a case whose expected result is a value (not an error branch) if
+    # there is one, then the directed cases, then the smallest
+    def rep_rank(c):
+        r = results[c["id"]]
+        return (0 if r["kind"] < 10 or r["kind"] >= 20 else 1, 0 if c["id"] < ctx.cov.get("corr_directed_cases", 0) else 1,
+                sum(len(o["data"]) for o in c["args"]))
+    reps = {k: min(v, key=rep_rank) for k, v in groups.items()}
     # second pass: what does the model say for the representatives
     body = HEADER + "".join("Eval vm_compute in observeZ gen_detQ gen_invQ (%s).\n" % coq_expr(c) for c in reps.values())
     rc, txt = ctx.coq_eval("Cases_failed.v", body, timeout=600)
